@@ -130,13 +130,15 @@ theorem exec_sc (svc ss : Bool) (s : State) (t : Tid) (th : Thread) (i : Instr) 
     cases i <;> simp only [sc_setThread] <;> (repeat' split) <;>
       simp_all [sc, setThread, setTC, thr_upd, tc, Thread.w, Thread.desc, Thread.key]
 
+def cready (c : SC) : Op → Bool
+  | .update w _ => (c.watchers w).isSome
+  | .close w => (c.watchers w).isSome
+  | _ => true
+
 /-- control-only step -/
 def cstep (P : Progs) (c : SC) : Label → Option SC
   | .spawn t op =>
-    if (c.thr t).isNone && (match op with
-        | .update w _ => (c.watchers w).isSome
-        | .close w => (c.watchers w).isSome
-        | _ => true) then
+    if (c.thr t).isNone && cready c op then
       some (setTC c t (tc { op := op, code := P.of op }))
     else none
   | .tau t =>
@@ -150,13 +152,9 @@ def cstep (P : Progs) (c : SC) : Label → Option SC
 theorem step_sc (P : Progs) (s : State) (l : Label) : (step P s l).map sc = cstep P (sc s) l := by
   cases l with
   | spawn t op =>
-    simp only [step, cstep, opReady]
     have h1 : ((sc s).thr t).isNone = (s.threads t).isNone := by simp [sc]
-    have h2 : (match op with
-        | .update w _ => ((sc s).watchers w).isSome
-        | .close w => ((sc s).watchers w).isSome
-        | _ => true) = opReady s op := by cases op <;> rfl
-    rw [h1, h2]
+    have h2 : cready (sc s) op = opReady s op := by cases op <;> rfl
+    simp only [step, cstep, h1, h2]
     split
     · simp [sc_setThread]
     · rfl
